@@ -809,6 +809,34 @@ func c08Message(rnd interface{ Int63() int64 }, k int) *big.Int {
 	}
 }
 
+// c08FixtureResults: what a key generation of the 5-seat fixture group without
+// the excluded seats saves -- real key-generation identities (dkg member set-up),
+// fixture share data restricted to the operating seats.
+func c08FixtureResults(rep *kit.Report, key string, fix []keygen.LocalPartySaveData, n int, gp *GroupParameters, excluded []int) map[int]*dkg.Result {
+	seed := big.NewInt(200)
+	results := map[int]*dkg.Result{}
+	for m := 1; m <= n; m++ {
+		if c08Contains(excluded, m) {
+			continue
+		}
+		p, err := dkg.VerifC08KeygenParties(seed, group.MemberIndex(m), n, gp.DishonestThreshold(), c08Idx(excluded), &fix[m-1].LocalPreParams)
+		if err != nil {
+			rep.Diverge(key+":keygen", fmt.Sprintf("key generation member %d could not set up its TSS party: %v", m, err), nil, nil, err.Error())
+			return nil
+		}
+		keys := make([]*big.Int, len(p.Sorted))
+		for i, k := range p.Sorted {
+			keys[i], _ = new(big.Int).SetString(k, 10)
+			if p.SortedBack[i] < 1 || p.SortedBack[i] > n || c08Rel1(k, seed) != p.SortedBack[i] {
+				rep.Diverge(key+":keygen", fmt.Sprintf("key generation member %d: party %s of its context maps back to member %d", m, k, p.SortedBack[i]), nil, c08Rel1(k, seed), p.SortedBack[i])
+				return nil
+			}
+		}
+		results[m] = &dkg.Result{Group: p.Group, PrivateKeyShare: c08Share(fix, keys, p.SortedBack, p.OwnIndex)}
+	}
+	return results
+}
+
 func TestVerif_C08_Sign(t *testing.T) {
 	kit.RequireEngine(t)
 	rep := kit.NewReport("C08", "sign")
@@ -818,7 +846,6 @@ func TestVerif_C08_Sign(t *testing.T) {
 	runs := kit.LoadCases(t, "runs.ndjson")
 	budget := time.Duration(kit.IntEnv("VERIF_SIGN_BUDGET_S", 900)) * time.Second
 	rnd := kit.Rand(88)
-	seed := big.NewInt(200)
 	for ri, r := range runs {
 		if rep.NDivergences() > 0 || c08PipelineDiverged > 0 {
 			rep.Note("real signing runs skipped after a divergence")
@@ -837,33 +864,8 @@ func TestVerif_C08_Sign(t *testing.T) {
 		for i, s := range seats {
 			all[i] = s.address
 		}
-		// what key generation without the excluded seats saves: real identities, fixture data restricted
-		results := map[int]*dkg.Result{}
-		bad := false
-		for m := 1; m <= n; m++ {
-			if c08Contains(excluded, m) {
-				continue
-			}
-			p, err := dkg.VerifC08KeygenParties(seed, group.MemberIndex(m), n, gp.DishonestThreshold(), c08Idx(excluded), &fix[m-1].LocalPreParams)
-			if err != nil {
-				rep.Diverge(key+":keygen", fmt.Sprintf("key generation member %d could not set up its TSS party: %v", m, err), r.X, nil, err.Error())
-				bad = true
-				break
-			}
-			keys := make([]*big.Int, len(p.Sorted))
-			for i, k := range p.Sorted {
-				keys[i], _ = new(big.Int).SetString(k, 10)
-				if p.SortedBack[i] < 1 || p.SortedBack[i] > n || c08Rel1(k, seed) != p.SortedBack[i] {
-					rep.Diverge(key+":keygen", fmt.Sprintf("key generation member %d: party %s of its context maps back to member %d", m, k, p.SortedBack[i]), r.X, c08Rel1(k, seed), p.SortedBack[i])
-					bad = true
-				}
-			}
-			if bad {
-				break
-			}
-			results[m] = &dkg.Result{Group: p.Group, PrivateKeyShare: c08Share(fix, keys, p.SortedBack, p.OwnIndex)}
-		}
-		if bad {
+		results := c08FixtureResults(rep, key, fix, n, gp, excluded)
+		if results == nil {
 			continue
 		}
 		byIdx := c08Register(t, rep, key, lc, gp, all, results)
